@@ -50,6 +50,7 @@ thread_local! {
     static NEXT_INST: Cell<u64> = const { Cell::new(1) };
     static LIVE: RefCell<HashMap<u64, u8>> = RefCell::new(HashMap::new());
     static DOUBLE_DROPS: Cell<u64> = const { Cell::new(0) };
+    static DEAD_USES: Cell<u64> = const { Cell::new(0) };
 }
 
 pub const FUSE_MSG: &str = "pqv-injected-fault";
@@ -110,6 +111,7 @@ pub fn tick(kind: FaultKind) {
 
 pub fn set_tracking(on: bool) {
     TRACK.with(|t| t.set(on));
+    DEAD_USES.with(|d| d.set(0));
     LIVE.with(|l| l.borrow_mut().clear());
     DOUBLE_DROPS.with(|d| d.set(0));
 }
@@ -119,6 +121,20 @@ pub fn tracking() -> bool {
 /// (live instances, double drops)
 pub fn tracking_report() -> (usize, u64) {
     (LIVE.with(|l| l.borrow().len()), DOUBLE_DROPS.with(|d| d.get()))
+}
+/// how often a user callback (cmp / hash / eq) was handed a value whose instance had already been
+/// dropped (a read of stale memory: use after move/drop)
+pub fn dead_uses() -> u64 {
+    DEAD_USES.with(|d| d.get())
+}
+#[inline]
+fn check_alive(inst: u64) {
+    if inst != 0 && TRACK.with(|t| t.get()) {
+        let alive = LIVE.try_with(|l| l.borrow().contains_key(&inst)).unwrap_or(true);
+        if !alive {
+            DEAD_USES.with(|d| d.set(d.get() + 1));
+        }
+    }
 }
 pub fn live_instances() -> Vec<u64> {
     LIVE.with(|l| l.borrow().keys().copied().collect())
@@ -188,6 +204,8 @@ impl Drop for Key {
 impl PartialEq for Key {
     #[inline]
     fn eq(&self, o: &Key) -> bool {
+        check_alive(self.inst);
+        check_alive(o.inst);
         tick(FaultKind::Eq);
         self.id == o.id
     }
@@ -196,6 +214,7 @@ impl Eq for Key {}
 impl Hash for Key {
     #[inline]
     fn hash<H: Hasher>(&self, state: &mut H) {
+        check_alive(self.inst);
         tick(FaultKind::Hash);
         self.id.hash(state)
     }
@@ -269,6 +288,8 @@ impl Ord for Prio {
     #[inline]
     fn cmp(&self, o: &Prio) -> Ordering {
         CMP_COUNT.with(|c| c.set(c.get() + 1));
+        check_alive(self.inst);
+        check_alive(o.inst);
         tick(FaultKind::Cmp);
         self.v.cmp(&o.v)
     }
